@@ -44,7 +44,7 @@ def gen_pump_case(rng: random.Random):
         post.append(rng.choice([["ua", gen_resp(rng)], ["t"]]))
     return {"up": up, "mw": mw, "handler": handler, "app": [a.hex() for a in app if a], "close_notify": rng.random() < 0.25,
             "plaintext": None, "cutseed": rng.randrange(1 << 30), "maxcuts": rng.choice([0, 1, 3, 6]), "stall": None,
-            "cert": rng.choice([None, None, 0, 1, 2, 3, 0, 3]), "post": post}
+            "cert": rng.choice([None, None, 0, 1, 2, 3, 0, 3, 4]), "post": post}
 
 
 class PumpFamily(Family):
